@@ -93,7 +93,7 @@ func (c *ProcCheck) collect(e *Env, cov map[string]any) ([]*Obs, error) {
 		return nil, err
 	}
 	if len(c.Storms) > 0 {
-		rounds := 6
+		rounds := 12
 		if thorough {
 			rounds = 60
 		}
